@@ -158,11 +158,11 @@ theorem extremum_extreme {β : Type} (lt : β → β → Bool) (P : β → Prop)
 
 /-! ### F&O wording of fn:max / fn:min on numeric input with a double -/
 
-theorem minMaxCore_fo_literal (isMax : Bool) (a : Atom) (rest : Seq)
+theorem minMaxCore_fo_literal (cl : Coll) (isMax : Bool) (a : Atom) (rest : Seq)
     (hout : outsideAgg (a :: rest) = false) (hnum : allKind .num (a :: rest) = true)
     (hdbl : anyDouble (a :: rest) = true) (hnan : (a :: rest).any (· == Atom.dbl .nan) = false)
     (hmono : promotionMonotoneOn (a :: rest) = true) :
-    ∃ r, Spec.minMaxCore isMax (a :: rest) = .ok [.dbl r] ∧ IsExtremeOfConverted isMax (a :: rest) r := by
+    ∃ r, Spec.minMaxCore cl isMax (a :: rest) = .ok [.dbl r] ∧ IsExtremeOfConverted isMax (a :: rest) r := by
   have hstr : allKind .str (a :: rest) = false := by
     have h1 : kind a = .num := by
       have := List.all_eq_true.mp hnum a List.mem_cons_self; simpa using this
